@@ -117,6 +117,8 @@ Theorem C03_size_cells_mem16 : forall c, In c sweep_mem16 -> ok013 c = true.
 Proof. apply forallb_forall. exact sweep_mem16_ok. Qed.
 Theorem C03_size_cells_mem32 : forall c, In c sweep_mem32 -> ok013 c = true.
 Proof. apply forallb_forall. exact sweep_mem32_ok. Qed.
+Theorem C03_size_cells_imul : forall c, In c sweep_imul -> ok013 c = true.
+Proof. apply forallb_forall. exact sweep_imul_ok. Qed.
 (* register, immediate, segment-register, stack and port cells *)
 Theorem C03_size_cells_reg : forall c, In c (sweep_rr ++ sweep_ri ++ sweep_sreg ++ sweep_stack ++ sweep_push_imm ++ sweep_port) -> ok03 c = true.
 Proof. apply forallb_forall. exact sweep_sizes_ok. Qed.
